@@ -500,6 +500,9 @@ class App:
         if self.authorize_stale:
             # the documented way to keep serving old tiles during an outage
             conf['sources']['up']['on_error'][500]['authorize_stale'] = True
+        if opts.get('watermark'):
+            # a pre-store filter: the stored (and answered) image is a new image object
+            conf['caches']['c1']['watermark'] = {'text': 'wm', 'opacity': 40}
         self.tcolor = bool(opts.get('tcolor'))
         if self.tcolor:
             # the source post-processes its images (white becomes transparent)
@@ -828,6 +831,10 @@ class History:
             before = dict(self.store)
             pre = before[key]
             stale = self.app.is_stale(pre)
+            if self.app.meta > 1 and self.app.ref is not None:
+                # this request is already inside the tile creator: under the meta tile lock it re-checks ALL tiles of
+                # the meta tile (`all(is_cached(t) ...)`), so a missing or stale sibling makes it fetch the meta tile again
+                stale = stale or any(before[k_] is None or self.app.is_stale(before[k_]) for k_ in meta_siblings(key, self.app.meta))
             refreshing = stale and (mode == 'ok' or (mode == 'fail' and not self.app.authorize_stale))
             calls0 = ran_other[-1]
         asked = self.up.calls - calls0
@@ -1476,9 +1483,10 @@ def run_app_stream(ctx):
                            CHECKER % (72 * 3600), lambda i, h=hist: h.descr[i], shard=60)
         # refresh rule with 2x2 meta tiles (the refreshed tile comes back as a new Tile object), cascaded caches
         for cache_type, refresh, meta, opts in (('file', True, 2, None), ('sqlite', True, 2, None),
-                                                ('file', False, 1, {'cascade': 'meta1'}), ('file', False, 1, {'cascade': 'meta2'})):
+                                                ('file', False, 1, {'cascade': 'meta1'}), ('file', False, 1, {'cascade': 'meta2'}),
+                                                ('file', False, 1, {'watermark': True})):
             hist = run_history(ctx, cache_type, meta, 72, ctx.n(40, 300), up, clock, refresh=refresh, opts=opts)
-            ctx.corr_check('app_%s_%s' % (cache_type, 'refresh_meta2' if refresh else 'cascade_' + opts['cascade']), 'Cond',
+            ctx.corr_check('app_%s_%s' % (cache_type, 'refresh_meta2' if refresh else '_'.join('%s_%s' % kv for kv in sorted(opts.items()))), 'Cond',
                            'store * event * list (Z * entry) * option outcome * store', hist.terms,
                            CHECKER % (72 * 3600), lambda i, h=hist: h.descr[i], shard=60)
         run_merged_wmsc(ctx, up, clock)
